@@ -84,6 +84,15 @@ let () =
         (if fs.Service.fs_closed then 1 else 0)
         (match fs.Service.fs_upg with None -> "none" | Some i -> bh i)
         (bh fs.Service.fs_tail));
+  (* feedcap: the transient-slice caller against the inner block buffer (capacity = Service.bufreader_capacity) *)
+  register "feedcap" (fun toks ->
+      let (st, chunks) = split_bar [] toks in
+      let svc = parse_service st in
+      let (fs, out) = Service.feed_all_cap Service.bufreader_capacity svc (Stdlib.List.map hb chunks) in
+      Printf.sprintf "out=%s closed=%d upg=%s tail=%s" (bh out)
+        (if fs.Service.fs_closed then 1 else 0)
+        (match fs.Service.fs_upg with None -> "none" | Some i -> bh i)
+        (bh fs.Service.fs_tail));
   (* spec <svc..> | <stream> *)
   register "spec" (fun toks ->
       let (st, s) = split_bar [] toks in
